@@ -4,20 +4,31 @@
 //! trusted: R15 (statement slicing): should_broadcast_holder_commitment_txn scans hash maps through a function-local macro_rules!; the unit extracts the go-on-chain test of scan_commitment! verbatim (both inequalities) as a function of (htlc, direction, height, preimage known); the scan itself is dropped and not claimed
 //! plemma: C08 lemma_forward_race / lemma_on_chain_heights_close_the_race: with the extracted constants and the extracted on-chain test, a silent or last-moment downstream peer never costs the upstream HTLC
 //! trusted: R15 (statement slicing): create_recv_pending_htlc_info is ~150 lines over onion payload types; the unit extracts, on every run, its three consecutive acceptance tests (final CLTV vs onion, PaymentClaimBuffer, amount) with their conditions verbatim and checks them as one function of the variables they read; the rest of the function is dropped and not claimed
+//! trusted: assume_specification for Result::or_else (std definition)
 //! trusted: env: PaymentConstraints {2 fields} skeleton; BlindedHopFeatures opaque with external_body empty()/requires_unknown_bits_from() (unconstrained)
-//! trusted: env: struct UpdateAddHTLC{amount_msat,cltv_expiry}, ChannelConfig{3 fields}, PaymentRelay{3 fields} are field skeletons of the real structs; enum LocalHTLCFailureReason restricted to the 5 variants used; FundedChannel self stub (R5: the body reads no field of self)
+//! trusted: env: struct UpdateAddHTLC{amount_msat,cltv_expiry}, ChannelConfig{3 fields}, PaymentRelay{3 fields} are field skeletons of the real structs; enum LocalHTLCFailureReason restricted to the 5 variants used; FundedChannel/ChannelContext self skeleton (R5) whose config()/prev_config() accessors are external_body returning the two stored configs
 //! assume: cur_height <= 2^31-1 (block heights)
 //! assume: Logger callbacks do not panic (R3)
 use vstd::prelude::*;
 verus! {
+// std definition of Result::or_else (trusted)
+pub assume_specification<T, E, F, O: FnOnce(E) -> Result<T, F>>[core::result::Result::<T, E>::or_else](r: Result<T, E>, op: O) -> (o: Result<T, F>)
+    requires r is Err ==> op.requires((r->Err_0,)),
+    ensures r is Ok ==> o == Ok::<T, F>(r->Ok_0), r is Err ==> op.ensures((r->Err_0,), o);
 // ---- constants (extracted from /repo on every run) ----
 //@const lightning/src/chain/channelmonitor.rs MAX_BLOCKS_FOR_CONF CLTV_CLAIM_BUFFER LATENCY_GRACE_PERIOD_BLOCKS ANTI_REORG_DELAY HTLC_FAIL_BACK_BUFFER
 //@const lightning/src/ln/channelmanager.rs MIN_CLTV_EXPIRY_DELTA CLTV_FAR_FAR_AWAY MIN_FINAL_CLTV_EXPIRY_DELTA
 
 pub enum LocalHTLCFailureReason { FeeInsufficient, IncorrectCLTVExpiry, CLTVExpiryTooSoon, CLTVExpiryTooFar, OutgoingCLTVTooSoon }
 pub struct UpdateAddHTLC { pub amount_msat: u64, pub cltv_expiry: u32 }
+#[derive(Clone, Copy)]
 pub struct ChannelConfig { pub forwarding_fee_proportional_millionths: u32, pub forwarding_fee_base_msat: u32, pub cltv_expiry_delta: u16 }
-pub struct FundedChannel {}
+pub struct ChannelContext { pub cfg: ChannelConfig, pub prev: Option<ChannelConfig> }
+impl ChannelContext {
+    #[verifier::external_body] pub fn config(&self) -> (r: ChannelConfig) ensures r == self.cfg { unimplemented!() }
+    #[verifier::external_body] pub fn prev_config(&self) -> (r: Option<ChannelConfig>) ensures r == self.prev { unimplemented!() }
+}
+pub struct FundedChannel { pub context: ChannelContext }
 
 pub open spec fn fwd_fee(amt: int, c: &ChannelConfig) -> int { amt * (c.forwarding_fee_proportional_millionths as int) / 1000000 + c.forwarding_fee_base_msat as int }
 
@@ -49,6 +60,28 @@ impl FundedChannel {
     outgoing_cltv_value as u64 + config.cltv_expiry_delta as u64
 //@with
     outgoing_cltv_value as u64
+//@end
+//@extract lightning/src/ln/channel.rs :: impl FundedChannel :: fn htlc_satisfies_config
+//@strip msgs
+//@ret r
+//@ensures P C02 a-forward-is-admitted-only-under-the-current-or-the-still-valid-previous-fee-policy
+    r is Ok ==> ((amt_to_forward as int + fwd_fee(amt_to_forward as int, &self.context.cfg) <= htlc.amount_msat
+                  && outgoing_cltv_value as int + self.context.cfg.cltv_expiry_delta as int <= htlc.cltv_expiry)
+              || (self.context.prev is Some
+                  && amt_to_forward as int + fwd_fee(amt_to_forward as int, &self.context.prev->Some_0) <= htlc.amount_msat
+                  && outgoing_cltv_value as int + self.context.prev->Some_0.cltv_expiry_delta as int <= htlc.cltv_expiry)),
+//@rw R9
+    .or_else(|$e:ident| $body)
+//@with
+    .or_else(|$e: LocalHTLCFailureReason| -> (o: Result<(), LocalHTLCFailureReason>)
+        ensures o is Ok ==> self.context.prev is Some
+            && amt_to_forward as int + fwd_fee(amt_to_forward as int, &self.context.prev->Some_0) <= htlc.amount_msat
+            && outgoing_cltv_value as int + self.context.prev->Some_0.cltv_expiry_delta as int <= htlc.cltv_expiry
+        $body)
+//@mutant previous_config_used_unchecked
+    self.internal_htlc_satisfies_config( htlc, amt_to_forward, outgoing_cltv_value, &prev_config, )
+//@with
+    Ok(())
 //@end
 }
 
